@@ -1,15 +1,21 @@
-// C04 (b): operator precedence.  The REAL TemplateCore::evaluate / GetExpressionValue (Template.hpp:1406-1498) walk a REAL
-// Array<QExpression> built by the harness (K top-level items, optionally one parenthesised item holding SUBK items; every
-// operator symbolic), with the binary kernel evaluateExpression replaced (ll2c stub) by a harness function:
-//   h_tree  kernel = INJECTIVE TREE ENCODER: the "value" of an operation is the prefix code of (operator, left, right).
-//           The result of evaluate() must be the code of exactly the tree that textbook precedence climbing builds with the
-//           rank table "rank(op) = QOperation code" (one rank per operator, equal operators associate to the left).
-//           This rank table refines the documented order: documented level a above level b  =>  every rank in a > every rank in b.
-//   h_doc   kernel = exact integer arithmetic on small operands; the result must equal an independent evaluator that uses the
-//           DOCUMENTED six levels (power remainder | multiply divide | add subtract | bitwise | comparisons | and or), left to
-//           right inside a level - on the fragment where the documentation is unambiguous (see ambiguous()).
-//   h_fail  kernel fails at an arbitrary call: evaluate() yields "no value" and stops calling the kernel.
-// The kernels themselves are layer (a) (C04_kernels.cpp).  Defines: K, PAR (index of the parenthesised item or -1), SUBK, VB.
+// C04 (b): operator precedence, modular.
+//  * h_tree / h_doc / h_fail: the REAL TemplateCore::evaluate (Template.hpp:1406-1438) walks a REAL Array<QExpression> of K items
+//    built by the harness (every operator symbolic).  Its two callees are replaced by harness functions (ll2c stubs):
+//      GetExpressionValue -> fn_gev: hands out the item's payload (each item fetched exactly once, in order);
+//      evaluateExpression -> the binary kernel under test mode:
+//        h_tree  INJECTIVE TREE ENCODER: the "value" of an operation is the prefix code of (operator, left, right).  The result of
+//                evaluate() must be the code of exactly the tree that textbook precedence climbing builds with the rank table
+//                "rank(op) = QOperation code" (one rank per operator, equal operators associate to the left).  This table refines
+//                the documented order: documented level a above level b  =>  every rank in a > every rank in b (checked: h_rank).
+//        h_doc   exact integer arithmetic on small operands; the result must equal an independent evaluator using the DOCUMENTED
+//                six levels (power remainder | multiply divide | add subtract | bitwise | comparisons | and or), left to right
+//                inside a level - on the fragment where the documentation is unambiguous (see ambiguous()).
+//        h_fail  the kernel fails at an arbitrary call: evaluate() yields "no value" and stops calling the kernel.
+//  * h_gev: the REAL GetExpressionValue (Template.hpp:1440-1498) on one item of every type with evaluate stubbed: numbers and
+//    text are copied, a parenthesised item is evaluated from its first sub-item with no pending operator, a variable is
+//    converted with SetNumber (not next to == / !=), a lone variable is "non-empty string" truth.
+//    Induction over nesting: a parenthesised item behaves as a leaf carrying the value of its own list.
+// The arithmetic kernels themselves are layer (a) (C04_kernels.cpp).  Defines: K, VB.
 #include "sym_value.hpp"
 #include "fixed_stream.hpp"
 #include "Template.hpp"
@@ -22,36 +28,34 @@ typedef unsigned long long u64; typedef long long i64;
 #ifndef K
 #define K 3
 #endif
-#ifndef PAR
-#define PAR (-1)
-#endif
-#ifndef SUBK
-#define SUBK 2
-#endif
 #ifndef VB
 #define VB 2
 #endif
 #define NOPS 16u
 
 // ------------------------------------------------------------------ the list
-static unsigned top_op[K], sub_op[SUBK];
-static u64      top_val[K], sub_val[SUBK];
+static unsigned top_op[K];
+static u64      top_val[K];
 static unsigned pick_op() { unsigned o = vf_u8(); vf_assume(o >= 1 && o <= NOPS); return o; }
 static void pick_list() {
     for (unsigned i = 0; i < K; i++) { top_val[i] = vf_u8() & ((1u << VB) - 1u); top_op[i] = 0; if (i + 1 < K) top_op[i] = pick_op(); }
-    for (unsigned j = 0; j < SUBK; j++) { sub_val[j] = vf_u8() & ((1u << VB) - 1u); sub_op[j] = 0; if (j + 1 < SUBK) sub_op[j] = pick_op(); }
 }
-// leaf payload: (number, aux) stored in Value.Number.Natural / Value.Offset
+// item payload: (number, aux) stored in Value.Number.Natural / Value.Offset
 struct Pay { u64 n; unsigned aux; };
 static void fill(QE &e, Pay p, unsigned op) { e.Type = ET::NaturalNumber; e.Value.Number.Natural = p.n; e.Value.Offset = p.aux; e.Operation = OP(op); }
+alignas(8) static unsigned char g_arr_mem[sizeof(Array<QE>)];
+static const QE *g_first; static unsigned g_fetch_mask; static bool g_fetch_bad;
 template <typename F> static void build(Array<QE> &arr, F leaf) {
-    for (unsigned i = 0; i < K; i++) {
-        if (int(i) == PAR) {
-            Array<QE> sub{SizeT(SUBK)};
-            for (unsigned j = 0; j < SUBK; j++) { QE e; fill(e, leaf(K + j, sub_val[j]), sub_op[j]); sub += Memory::Move(e); }
-            arr += QE{Memory::Move(sub), OP(top_op[i])};
-        } else { QE e; fill(e, leaf(i, top_val[i]), top_op[i]); arr += Memory::Move(e); }
-    }
+    for (unsigned i = 0; i < K; i++) { QE e; fill(e, leaf(i, top_val[i]), top_op[i]); arr += Memory::Move(e); }
+    g_first = arr.First(); g_fetch_mask = 0; g_fetch_bad = false;
+}
+// stand-in for GetExpressionValue inside the precedence queries: copy the payload; log which item was fetched
+extern "C" bool fn_gev(const TC *self, QE *result, const QE *expr, unsigned char op) {
+    unsigned idx = unsigned(expr - g_first);
+    if (idx >= K || (g_fetch_mask & (1u << idx)) != 0) g_fetch_bad = true;     // inside the list, never twice
+    g_fetch_mask = g_fetch_mask | (1u << idx);
+    result->Value = expr->Value; result->Type = expr->Type;
+    return true;
 }
 
 // ------------------------------------------------------------------ tree mode
@@ -89,32 +93,30 @@ static Enc climb_tree(const unsigned *ops, const Enc *prim, unsigned n, unsigned
 }
 extern "C" void h_tree() {
     pick_list();
-    Array<QE> arr{SizeT(K)};
+    Array<QE> &arr = *new (g_arr_mem) Array<QE>{SizeT(K)};     // never destroyed: the list's destructor is not the subject
     build(arr, [](unsigned id, u64 v) { Enc e = enc_leaf(id); Pay p; p.n = e.bits; p.aux = e.len; return p; });
     TC tc{nullptr, 0};
     const QE *expr = arr.First(); QE result;
     g_calls = 0;
     bool ok = tc.evaluate(result, expr, OP::NoOp);
     // reference
-    Enc sp[SUBK], tp[K];
-    for (unsigned j = 0; j < SUBK; j++) sp[j] = enc_leaf(K + j);
-    unsigned si = 0; Enc subtree = climb_tree(sub_op, sp, SUBK, si, 0);
-    for (unsigned i = 0; i < K; i++) { tp[i] = enc_leaf(i); if (int(i) == PAR) tp[i] = subtree; }
+    Enc tp[K];
+    for (unsigned i = 0; i < K; i++) tp[i] = enc_leaf(i);
     unsigned ti = 0; Enc want = climb_tree(top_op, tp, K, ti, 0);
     vf_assert(ok, 1);
     vf_assert(result.Value.Number.Natural == want.bits && result.Value.Offset == want.len, 2);      // the same tree
-    vf_assert(g_calls == (K - 1) + ((PAR >= 0) ? (SUBK - 1) : 0), 3);                               // every operator applied exactly once
+    vf_assert(g_calls == K - 1 && !g_fetch_bad && g_fetch_mask == (1u << K) - 1u, 3);               // every operator applied once, every item fetched once
     vf_assert(expr == arr.First() + (K - 1), 4);                                                    // cursor on the last item
     vf_witness();
 }
 extern "C" void h_fail() {
     pick_list();
-    Array<QE> arr{SizeT(K)};
+    Array<QE> &arr = *new (g_arr_mem) Array<QE>{SizeT(K)};     // never destroyed: the list's destructor is not the subject
     build(arr, [](unsigned id, u64 v) { Pay p; p.n = v; p.aux = 0; return p; });
     TC tc{nullptr, 0};
     const QE *expr = arr.First(); QE result;
     g_calls = 0; g_after_fail = false; g_fail_at = vf_u8();
-    const unsigned total = (K - 1) + ((PAR >= 0) ? (SUBK - 1) : 0);
+    const unsigned total = K - 1;
     vf_assume(g_fail_at < total);
     bool ok = tc.evaluate(result, expr, OP::NoOp);
     vf_assert(!ok, 1);                       // one undefined operation anywhere: the whole expression has no value
@@ -177,23 +179,83 @@ static bool ambiguous(const unsigned *ops, unsigned n) {
 }
 extern "C" void h_doc() {
     pick_list();
-    vf_assume(!ambiguous(top_op, K) && !ambiguous(sub_op, SUBK));
-    Array<QE> arr{SizeT(K)};
+    vf_assume(!ambiguous(top_op, K));
+    Array<QE> &arr = *new (g_arr_mem) Array<QE>{SizeT(K)};     // never destroyed: the list's destructor is not the subject
     build(arr, [](unsigned id, u64 v) { Pay p; p.n = v; p.aux = 0; return p; });
     TC tc{nullptr, 0};
     const QE *expr = arr.First(); QE result;
     g_calls = 0; g_unsupported = false;
     bool ok = tc.evaluate(result, expr, OP::NoOp);
-    DV sp[SUBK], tp[K];
-    for (unsigned j = 0; j < SUBK; j++) { sp[j].v = (i64)sub_val[j]; sp[j].ok = true; }
-    unsigned si = 0; DV sub = climb_doc(sub_op, sp, SUBK, si, 0);
-    for (unsigned i = 0; i < K; i++) { tp[i].v = (i64)top_val[i]; tp[i].ok = true; if (int(i) == PAR) tp[i] = sub; }
+    DV tp[K];
+    for (unsigned i = 0; i < K; i++) { tp[i].v = (i64)top_val[i]; tp[i].ok = true; }
     unsigned ti = 0; DV want = climb_doc(top_op, tp, K, ti, 0);
     vf_assume(!g_unsupported);
-#ifdef KF_EXCL_C04_rem_zero
-    // (nothing to exclude here: the kernel is the harness arithmetic, x % 0 is "no value" by construction)
-#endif
     vf_assert(ok == want.ok, 1);
     if (ok) vf_assert(result.Value.Number.Integer == want.v, 2);
+    vf_witness();
+}
+
+// ------------------------------------------------------------------ the documented order is refined by the rank table
+extern "C" void h_rank() {
+    unsigned a = pick_op(); unsigned b = pick_op();
+    if (doc_level(a) > doc_level(b)) vf_assert(RANK_FINE(a) > RANK_FINE(b), 1);
+    vf_witness();
+}
+
+// ------------------------------------------------------------------ GetExpressionValue alone (evaluate stubbed)
+#ifndef ITYPE
+#define ITYPE 2
+#endif
+static const QE *g_ev_expr; static unsigned g_ev_prev, g_ev_calls; static bool g_ev_ret; static u64 g_ev_val;
+extern "C" bool fn_evaluate(const TC *self, QE *left, const QE **expr, unsigned char prev) {
+    g_ev_expr = *expr; g_ev_prev = prev; g_ev_calls = g_ev_calls + 1;
+    left->Type = ET::NaturalNumber; left->Value.Number.Natural = g_ev_val;
+    return g_ev_ret;
+}
+static SymValue<C> g_root, g_ka;
+extern "C" void h_gev() {
+    unsigned oper = vf_u8(); vf_assume(oper <= NOPS);            // the operator the value is fetched for
+    unsigned own = vf_u8(); vf_assume(own <= NOPS);              // the item's own pending operator
+    u64 bits = vf_u64(); unsigned off = vf_u32(); unsigned len = vf_u32();
+    C *content = vf_buf<C>(1); content[0] = C('a');
+    g_ka.ntype = QNumberType(vf_u8() & 3); g_ka.stype = QNumberType(vf_u8() & 3); g_ka.bits = vf_u64();
+    g_ka.has_text = vf_u8() & 1; g_ka.is_string = vf_u8() & 1; g_ka.text = content; g_ka.text_len = vf_u8() & 1;
+    vf_assume(sym_value_consistent(g_ka));
+    bool missing = vf_u8() & 1;
+    g_root.kid_a = missing ? nullptr : &g_ka;
+    g_ev_calls = 0; g_ev_ret = vf_u8() & 1; g_ev_val = vf_u64();
+    Array<QE> &arr = *new (g_arr_mem) Array<QE>{SizeT(1)};
+    if (ITYPE == 6) {
+        Array<QE> sub{SizeT(1)};
+        QE leaf; Pay p; p.n = bits; p.aux = off; fill(leaf, p, 0); sub += Memory::Move(leaf);
+        arr += QE{Memory::Move(sub), OP(own)};
+    } else if (ITYPE == 5) {
+        QE e{ET::Variable, OP(own)}; e.Variable.Offset = 0; e.Variable.Length = 1; e.Variable.IDLength = 0; e.Variable.Level = 0;
+        arr += Memory::Move(e);
+    } else {
+        QE e; e.Type = ET(ITYPE); e.Operation = OP(own); e.Value.Number.Natural = bits; e.Value.Offset = off; e.Value.Length = len;
+        arr += Memory::Move(e);
+    }
+    const QE *item = arr.First();
+    TC tc{content, 1}; tc.value_ = &g_root;
+    QE result;
+    bool ok = tc.GetExpressionValue(result, item, OP(oper));
+    if (ITYPE == 6) {
+        vf_assert(g_ev_calls == 1 && g_ev_expr == item->SubExpressions.First() && g_ev_prev == 0, 1);   // its own list, from the start, nothing pending
+        vf_assert(ok == g_ev_ret && result.Value.Number.Natural == g_ev_val, 2);
+    } else if (ITYPE == 5) {
+        vf_assert(g_ev_calls == 0, 3);
+        if (oper != 3 && oper != 4) {
+            bool conv = !missing && g_ka.stype != QNumberType::NotANumber;
+            if (conv) vf_assert(ok && unsigned(result.Type) == unsigned(g_ka.stype) && result.Value.Number.Natural == g_ka.bits, 4);
+            else if (oper == 0 && own == 0)                       // a lone variable: "is a non-empty string"
+                vf_assert(ok && result.Type == ET::NaturalNumber &&
+                          result.Value.Number.Natural == ((!missing && g_ka.is_string && g_ka.text_len != 0) ? 1ULL : 0ULL), 5);
+            else vf_assert(!ok, 6);                               // not a number inside arithmetic: no value
+        } else vf_assert(ok && result.Type == ET::Variable && result.Variable.Offset == 0 && result.Variable.Length == 1, 7);   // left to isEqual
+    } else {
+        vf_assert(g_ev_calls == 0, 8);
+        vf_assert(ok && unsigned(result.Type) == ITYPE && result.Value.Number.Natural == bits && result.Value.Offset == off && result.Value.Length == len, 9);
+    }
     vf_witness();
 }
